@@ -286,13 +286,26 @@ def gauss_cases(ctx, n_cases):
         g.mmat = np.array([[complex(float(a), float(b)) for a, b in row] for row in M], dtype=complex).reshape(n, n)
         g.mean = np.array([complex(float(a), float(b)) for a, b in mean], dtype=complex)
         ops, names = [], []
+        n0 = n
+        dead = set()
         for _ in range(rng.randint(1, 6)):
             kinds = ["squeeze", "phase", "displace", "loss", "thermalLoss", "initThermal", "fromCov", "applyU", "bkprep"] + \
-                (["bs", "bs"] if n >= 2 else [])
+                (["bs", "bs"] if n - len(dead) >= 2 else []) + (["addMode"] if n <= 6 else []) + \
+                (["delMode"] if n - len(dead) >= 2 else [])
             kind = rng.choice(kinds)
-            k = rng.randrange(n)
+            alive = [m for m in range(n) if m not in dead]
+            k = rng.choice(alive)
             names.append(kind)
-            if kind == "squeeze":
+            if kind == "addMode":       # register grows (`New`): old modes keep everything, new ones are vacua
+                m_new = rng.randint(1, 2)
+                ops.append(dict(op="addMode", m=m_new, k=k))
+                be.add_mode(m_new)
+                n += m_new
+            elif kind == "delMode":     # register shrinks (`Del`): the mode is traced out and marked inactive, indices stay
+                ops.append(dict(op="loss", q=fr(Fraction(0)), k=k))
+                be.del_mode([k])
+                dead.add(k)
+            elif kind == "squeeze":
                 c, s = circle_point(rng)
                 ch, sh, r = hyper_point(rng)
                 ops.append(dict(op="squeeze", c=fr(c), s=fr(s), ch=fr(ch), sh=fr(sh), k=k))
@@ -302,7 +315,7 @@ def gauss_cases(ctx, n_cases):
                 ops.append(dict(op="phase", c=fr(c), s=fr(s), k=k))
                 g.phase_shift(math.atan2(s, c), k)
             elif kind == "bs":
-                l = rng.choice([m for m in range(n) if m != k])
+                l = rng.choice([m for m in alive if m != k])
                 c, s = circle_point(rng)
                 ct, sn = circle_point(rng)
                 if rng.random() < 0.5:      # through the back-end API (sign convention of backend.py)
@@ -342,8 +355,8 @@ def gauss_cases(ctx, n_cases):
                     be.prepare_displaced_squeezed_state(float(rr), math.atan2(s2, c2), r, math.atan2(s, c), k)
                 spec_ok = False
             elif kind == "fromCov":      # GaussianBackend.prepare_gaussian_state(r, V, modes): mode list in any order
-                kk = rng.randint(1, min(3, n))
-                modes = rng.sample(range(n), kk)
+                kk = rng.randint(1, min(3, len(alive)))
+                modes = rng.sample(alive, kk)
                 qq = lambda: Fraction(rng.randint(-6, 6), rng.choice([1, 2, 4]))
                 S1 = [[qq() for _ in range(kk)] for _ in range(kk)]
                 S2 = [[qq() for _ in range(kk)] for _ in range(kk)]
@@ -359,8 +372,8 @@ def gauss_cases(ctx, n_cases):
                 be.prepare_gaussian_state(np.array([float(x) for x in rx + rp]), V, modes)
                 spec_ok = False
             elif kind == "applyU":       # GaussianBackend.passive(T, modes): T_expand[ix_(modes, modes)] = T, then apply_u
-                kk = rng.randint(1, min(3, n))
-                modes = rng.sample(range(n), kk)
+                kk = rng.randint(1, min(3, len(alive)))
+                modes = rng.sample(alive, kk)
                 qq = lambda: Fraction(rng.randint(-4, 4), rng.choice([1, 2]))
                 T = [[(qq(), qq()) for _ in range(kk)] for _ in range(kk)]
                 ops.append(dict(op="applyU", modes=modes, T=[[[fr(a), fr(b)] for a, b in r] for r in T], k=modes[0]))
@@ -370,12 +383,12 @@ def gauss_cases(ctx, n_cases):
                 pop = rng.choice([Fraction(0), Fraction(1, 4), Fraction(3)])
                 ops.append(dict(op="initThermal", pop=fr(pop), k=k))
                 g.init_thermal(float(pop), k)
-        req = {"op": "gauss.run", "n": n, "spec": spec_ok,
+        req = {"op": "gauss.run", "n": n0, "spec": spec_ok,
                "N": [[[fr(a), fr(b)] for a, b in row] for row in N],
                "M": [[[fr(a), fr(b)] for a, b in row] for row in M],
                "mean": [[fr(a), fr(b)] for a, b in mean], "ops": ops}
-        case = dict(n=n, ops=[dict(o, **{}) for o in ops])
-        out.append((req, g, case, names))
+        case = dict(n=n, n0=n0, ops=[dict(o, **{}) for o in ops])
+        out.append((req, be.circuit, case, names))
     return out
 
 
